@@ -20,10 +20,22 @@ import gen
 RULE = ("estimators over bounded-dynamics definitions with 1-2 sensors of 1-2 readings and 0-2 controls (>=2 sensors or >=2 controls in "
         "half), thresholds k>0 or disabled, dyadic data matrices of 4-8 rows (quick) / up to 40 (thorough); transform vs running the "
         "exported filter by hand vs the Lean model; mahalanobis, score(explain_score=True), parameter identity before/after, repeated "
-        "calls; distinct by (definition, config, data); non-trivial = >=2 sensors or >=2 controls or a reading with >=2 components")
+        "calls; distinct by (definition, config, data); non-trivial = >=2 sensors or >=2 controls or a reading with >=2 components; "
+        "fixed stream sensor-ids-not-strings: 2-3 sensors keyed by ints of different digit counts / (name, number) tuples / floats / IntEnum "
+        "members (equal and unequal reading counts, either insertion order), transform and mahalanobis vs the filter run by hand in sorted(keys) order; "
+        "fixed stream score-with-sample-weights: score(X, sample_weight=w) for 0/1 masks, recency weights in (0, 1], integer repeat counts, "
+        "mean-one and all-one weights (2-sensor and 1-sensor estimators, filtering on and off): a weight of one per value must give the documented "
+        "combination of the by-hand NIS, every other weighting must be repeatable and finite (how weights enter is not documented, so not demanded)")
 NOTE = ["by-hand oracle: export_python(), predict with dt = 0.1, update sensors in sorted key order, NIS from the recorded innovation and S",
         "Lean model uses dt = 1/10 exactly (binary64 0.1 differs by 5e-18 relative) and exact rationals; compared under 1e-9 relative "
-        "tolerance; rows after a reading whose NIS is within 1e-7 of the editing threshold are not compared with the exact model"]
+        "tolerance; rows after a reading whose NIS is within 1e-7 of the editing threshold are not compared with the exact model",
+        "sensor-ids-not-strings: 'key order' is sorted(keys) of the ids themselves (2 before 10, ('imu', 2) before ('imu', 10)), which is also the "
+        "order the by-hand run slices the row and updates in; inputs fixed by a private generator (no draws from the shared stream)",
+        "score-with-sample-weights: one weight per NIS value (row-major, n_samples * n_sensors); with all-one weights the oracle is the documented "
+        "10 * mean(sqrt(NIS))^2 + (1/V + V)/2 with V = sum(NIS) + 0.01 * sum(noise^2), NIS from the exported filter run by hand, and must equal the "
+        "unweighted score; for other weightings only repeatability and finiteness are demanded - the property speaks of the documented combination "
+        "and the weighted form is documented nowhere (a seeded change that renormalises the weighted bias term, C16-r7-2, is therefore deliberately "
+        "not reported); weight vectors with V <= 0 are skipped and counted"]
 LEAN_ROWS = 2
 PARTIAL = ["numpy float arithmetic; scikit-learn BaseEstimator machinery is not modelled"]
 
@@ -173,6 +185,125 @@ def special_configurations_and_data(ctx):
             ctx.fail(f"adapter-raises:{fk.exc_kind(e)}:nearly-exact", repr(e)[:300], {"def": d.describe(), "stream": "nearly-exact-data"})
 
 
+def _case_def(d):
+    """describe() with sensor ids written out (ids that are not strings cannot be JSON object keys as they are)"""
+    c = d.describe()
+    c["sensors"] = {repr(k): v for k, v in c["sensors"].items()}
+    return c
+
+
+def sensor_ids_that_are_not_strings(ctx):
+    """sensors keyed by ids that are not strings: 'key order' is the order of the ids themselves (sorted(keys)); a data row is
+    [controls, readings of each sensor in that order] and the filter is updated in that order. Inputs are fixed (private generator)."""
+    import enum
+    import random
+
+    class Sid(enum.IntEnum):
+        FRONT = 2
+        REAR = 10
+
+    prng = random.Random(0xC16A)
+    # (ids in insertion order, readings per sensor: None = whatever the generator draws (1-2), 1 = all sensors one reading)
+    plans = [([2, 10], 1), ([10, 2], None), ([10, 9, 100], None), ([("imu", 2), ("imu", 10)], 1), ([2.5, 10.0], None), ([Sid.REAR, Sid.FRONT], 1)]
+    for p_i, (ids, readings) in enumerate(plans):
+        d = gen.tame_definition(prng, n_control=1, n_sensors=len(ids), n_calib=0, max_readings=readings or 2)
+        d.sensors = {new: rd for new, (_, rd) in zip(ids, list(d.sensors.items()))}
+        process, sensor = eh.make_noises(prng, d)
+        width = len(d.control) + sum(len(rd) for rd in d.sensors.values())
+        X = np.array([[float(gen.dyadic(prng, -2, 2)) for _ in range(width)] for _ in range(5)], dtype=float)
+        k = None if p_i % 2 == 0 else 5.0
+        case = {"def": _case_def(d), "stream": "sensor-ids-not-strings", "ids": [repr(i) for i in ids], "filtering": k, "X": X.tolist()}
+        ctx.case(case, True); ctx.count("stream=sensor-ids-not-strings"); ctx.count(f"sensor_id_type={type(ids[0]).__name__}")
+        try:
+            with fk.quiet():
+                ad = make_adapter(d, process, sensor, {}, k)
+                T = np.asarray(ad.transform(X), dtype=float)
+                M = np.asarray(ad.mahalanobis(X), dtype=float)
+                H = np.array(by_hand(ad, d, X.tolist()), dtype=float)
+        except Exception as e:
+            ctx.fail(f"adapter-raises:{fk.exc_kind(e)}:sensor-ids-not-strings", f"sensors keyed by {ids!r}: adapter call raises {e!r}"[:300], case)
+            continue
+        tol = 1e-9 * (1 + float(np.max(np.abs(H))))
+        if T.shape != H.shape or float(np.max(np.abs(T - H))) > tol:
+            ctx.fail("transform-vs-byhand:sensor-ids-not-strings", f"sensors keyed by {ids!r} (key order {sorted(ids)!r}): transform returns {T.tolist()} but "
+                     f"running the exported filter by hand over [controls, sensors in key order] gives {H.tolist()}", case)
+            continue
+        if M.shape != (H.size,) or float(np.max(np.abs(M - H.flatten()))) > tol:
+            ctx.fail("mahalanobis-vs-byhand:sensor-ids-not-strings", f"sensors keyed by {ids!r}: mahalanobis returns {M.tolist()}, the by-hand NIS "
+                     f"flattened is {H.flatten().tolist()}", case)
+
+
+def score_with_sample_weights(ctx):
+    """score(X, sample_weight=w), one weight per NIS value: 10 * mean(sqrt(NIS) * w)^2 + (1/V + V)/2 + 0.01 * size, V = sum(NIS * w),
+    with the NIS of the exported filter run by hand. Inputs are fixed (private generator)."""
+    import random
+    prng = random.Random(0xC16B)
+    x, v, dt = sympy.symbols("qx qv dt")
+    one = gen.Definition(dt, [x, v], [], [], {x: x + dt * v, v: v * sympy.Rational(9, 10)}, {"only": {"r": x + v}})
+    setups = [(gen.tame_definition(prng, n_control=1, n_sensors=2, n_calib=0), None, None),
+              (gen.tame_definition(prng, n_control=2, n_sensors=2, n_calib=0), 4.0, None),
+              (one, None, ({}, {"only": {"r": F(1, 2)}}))]
+    for d, k, noises in setups:
+        process, sensor = noises if noises is not None else eh.make_noises(prng, d)
+        width = len(d.control) + sum(len(rd) for rd in d.sensors.values())
+        nrows = 6
+        X = np.array([[float(gen.dyadic(prng, -2, 2)) for _ in range(width)] for _ in range(nrows)], dtype=float)
+        base = {"def": d.describe(), "stream": "score-with-sample-weights", "filtering": k, "X": X.tolist()}
+        try:
+            with fk.quiet():
+                ad = make_adapter(d, process, sensor, {}, k)
+                H = np.array(by_hand(ad, d, X.tolist()), dtype=float)
+                plain = ad.score(X)
+        except Exception as e:
+            ctx.fail(f"adapter-raises:{fk.exc_kind(e)}:sample-weights", repr(e)[:300], base)
+            continue
+        nis = H.flatten()
+        N = nis.size
+        ns = len(d.sensors)
+        mat = sum(float(q) ** 2 for q in process.values()) + sum(float(q) ** 2 for rd in sensor.values() for q in rd.values())
+        weightings = [
+            ("all ones", np.ones(N)),
+            ("mean-one weights", np.array([0.5, 1.5] * (N // 2), dtype=float)),
+            ("0/1 mask dropping the first two rows", np.array([0.0] * (2 * ns) + [1.0] * (N - 2 * ns))),
+            ("0/1 mask keeping every other row", np.array(([1.0] * ns + [0.0] * ns) * (nrows // 2))),
+            ("recency weights in (0, 1]", np.linspace(0.1, 1.0, N)),
+            ("integer repeat counts", np.array([float(1 + (j % 3)) for j in range(N)])),
+            ("integer repeat counts as a list of ints", [1 + (j % 3) for j in range(N)]),
+            ("uniform weight 1/4", np.full(N, 0.25)),
+        ]
+        for label, w in weightings:
+            wf = np.asarray(w, dtype=float)
+            case = dict(base, weights=label, sample_weight=wf.tolist())
+            V = float(np.sum(nis * wf))
+            if not (V > 0.0):
+                ctx.count("sample_weights_total_not_positive"); continue
+            ctx.case(case, True); ctx.count("stream=score-with-sample-weights")
+            bias = float(np.mean(np.sqrt(nis) * wf)) ** 2
+            want = 10.0 * bias + 1.0 * ((1.0 / V + V) / 2.0) + 0.01 * mat
+            try:
+                with fk.quiet():
+                    sc, expl = ad.score(X, sample_weight=w, explain_score=True)
+                    sc2 = ad.score(X, sample_weight=w) if label.startswith("recency") else sc
+            except Exception as e:
+                ctx.fail(f"adapter-raises:{fk.exc_kind(e)}:sample-weights", f"score with {label} raises {e!r}"[:300], case)
+                continue
+            # The property speaks of the DOCUMENTED combination; how weights enter it is documented nowhere (only the unweighted form is),
+            # so the formula is demanded for a weight of one per value only - other weightings must be repeatable and finite.
+            if label != "all ones":
+                if sc != sc2:
+                    ctx.fail("adapter-not-repeatable:sample-weights", "repeating score with the same weights gives a different value", case)
+                elif not np.isfinite(sc):
+                    ctx.fail("score-not-finite:sample-weights", f"{label}: score {sc!r}", case)
+                continue
+            if not core.close(sc, want, scale=abs(want)) or not core.close(expl[1], bias, scale=bias):
+                ctx.fail("score-formula:sample-weights", f"{label} (sum {float(np.sum(wf))!r} over {N} values): score {sc!r} is not "
+                         f"10*mean(sqrt(NIS)*w)^2 + (1/V + V)/2 + 0.01*matrix = {want!r} (bias term {expl[1]!r}, wanted {bias!r})", case)
+            elif sc != sc2:
+                ctx.fail("adapter-not-repeatable:sample-weights", "repeating score with the same weights gives a different value", case)
+            elif label == "all ones" and not core.close(sc, plain, scale=abs(plain)):
+                ctx.fail("score-all-ones-vs-unweighted", f"score with a weight of one per value {sc!r} differs from the unweighted score {plain!r}", case)
+
+
 def run(ctx):
     audit = core.lean_audit("C16")
     drv = core.Driver()
@@ -272,6 +403,8 @@ def run(ctx):
             pending.append((idx, T1, k, d, case))
     special_configurations_and_data(ctx)
     results_are_values_and_vector_data(ctx)
+    sensor_ids_that_are_not_strings(ctx)      # fixed inputs; no draws from ctx.rng
+    score_with_sample_weights(ctx)            # fixed inputs; no draws from ctx.rng
     ans = drv.run()
     for idx, T1, k, d, info in pending:
         a = ans[idx]
